@@ -81,6 +81,9 @@ const HOST_CLASSES: [&str; 8] = [
     "AttributeError", "RuntimeError", "ImportError", "IndexError", "NameError", "RuntimeError", "TypeError", "ValueError",
 ];
 
+/// statements that lack their terminating `;`: the error is the next token's, on the next line
+const UNTERMINATED: &[&str] = &["var zs = 1", "print(1)", "throw 1", "var zs3", "zs4 = 2", "nil"];
+
 impl C17 {
     fn compile_lines(&self, bytes: &[u8], ctx: &mut CaseCtx) -> Verdict {
         if bytes.len() < 6 {
@@ -105,6 +108,14 @@ impl C17 {
         while l >= 2 && lines[l - 2].trim_start().starts_with("#[") {
             l -= 1;
         }
+        // one time in five, a statement without its `;` instead: what follows must begin with a word,
+        // `#` or `{`, so that it cannot continue the expression
+        let next_starts_word = lines
+            .get(l - 1)
+            .map(|t| t.trim_start().chars().next().map(|c| c.is_ascii_alphabetic() || c == '#' || c == '{').unwrap_or(false))
+            .unwrap_or(false);
+        let unterminated = next_starts_word && where_ % 5 == 0;
+        let inj = if unterminated { UNTERMINATED[(where_ / 5) % UNTERMINATED.len()] } else { inj };
         let mut out: Vec<String> = Vec::new();
         let mut err_line = 0;
         for (i, line) in lines.iter().enumerate() {
@@ -115,7 +126,10 @@ impl C17 {
                     out.push("second\";".to_string());
                 }
                 out.push(inj.to_string());
-                err_line = out.len();
+                err_line = out.len() + if unterminated { 1 } else { 0 };
+                if unterminated {
+                    ctx.label("injected_unterminated");
+                }
             }
             out.push(line.to_string());
         }
@@ -268,7 +282,7 @@ impl Property for C17 {
     }
 
     fn rule(&self) -> String {
-        "cases: (runtime_traces) generated programs with few guards, laid out with random blank lines and comments, whose uncaught error arises in functions, methods, static methods, constructors, lambdas and fibers at call depths up to the frame limit; (module_traces) import graphs whose module functions fail when called from main, so traces cross modules; (compile_lines) valid generated programs with one definite error (9 syntax errors and 13 violations of compile-time rules: break/continue outside a loop, self/Self/super outside a class, self in a static method, super without a superclass, return at top level, a value returned from an initialiser, a method without self, a local read in its own initialiser or declared twice, an invalid assignment target) injected as a line of its own before a top-level statement, optionally preceded by a two-line string literal; (host_natives) a host-defined native returning each ErrorKind with several message texts, called directly, from a function and from a method, first caught, then uncaught. Oracle: reference interpreter for class, kind and the trace (one entry per active call, innermost first, with module, function name incl. lambda-N numbering, and the line the printer gave the executing statement); relation X-17 for texts: a twin program wraps the failing top-level statement in try/catch and prints type(e) and e.context, and the uncaught report must read 'Unhandled <that class>: <that context>' with the kind that class maps to; the first compile message must name the injected line; host errors must be catchable as the class of their kind with the host's message as context. Non-trivial: a trace of >=3 frames, an injected error beyond line 3, or any host case; distinct by program text.".into()
+        "cases: (runtime_traces) generated programs with few guards, laid out with random blank lines and comments, whose uncaught error arises in functions, methods, static methods, constructors, lambdas and fibers at call depths up to the frame limit; (module_traces) import graphs whose module functions fail when called from main, so traces cross modules; (compile_lines) valid generated programs with one definite error (9 syntax errors and 13 violations of compile-time rules: break/continue outside a loop, self/Self/super outside a class, self in a static method, super without a superclass, return at top level, a value returned from an initialiser, a method without self, a local read in its own initialiser or declared twice, an invalid assignment target; one time in five a statement without its terminating `;`, whose error belongs to the next token on the following line) injected as a line of its own before a top-level statement, optionally preceded by a two-line string literal; (host_natives) a host-defined native returning each ErrorKind with several message texts, called directly, from a function and from a method, first caught, then uncaught. Oracle: reference interpreter for class, kind and the trace (one entry per active call, innermost first, with module, function name incl. lambda-N numbering, and the line the printer gave the executing statement); relation X-17 for texts: a twin program wraps the failing top-level statement in try/catch and prints type(e) and e.context, and the uncaught report must read 'Unhandled <that class>: <that context>' with the kind that class maps to; the first compile message must name the injected line; host errors must be catchable as the class of their kind with the host's message as context. Non-trivial: a trace of >=3 frames, an injected error beyond line 3, or any host case; distinct by program text.".into()
     }
 
     fn assumptions(&self) -> Vec<String> {
